@@ -26,7 +26,7 @@ type NativeScenario struct {
 // deciding step of any property.
 func NativeMain(prop string, scs []NativeScenario) {
 	run := vx.Start(prop)
-	n := 40
+	n := 12
 	if s := os.Getenv("RACE_ITERS"); s != "" {
 		n, _ = strconv.Atoi(s)
 	}
